@@ -64,6 +64,10 @@ Conf(k) ==
       e == ln.e
       post == StateOf(ln)
   IN IF ~Enabled(S, e) THEN {"enabled"}
+     \* a sweep that meets a mailbox whose age is exactly the expiration time: the
+     \* properties leave that boundary open, and with fractional clock values the
+     \* implementation's float comparison may fall either way -- not compared
+     ELSE IF e.k \in {"Sweep", "Start", "CrashInSweep"} /\ \E m \in S.db.mb : S.now - m.updated = EXP THEN {}
      ELSE LET r == Step(S, e) IN
           (IF r.S.db = post.db THEN {} ELSE {"db"})
           \cup (IF UBag(r.S.udb) = UBag(post.udb) THEN {} ELSE {"udb"})
